@@ -1966,6 +1966,8 @@ func (p *parser) selectObject(child Node) (Node, error) {
 			}
 		case lexer.UnquotedIdentifierToken:
 			key = p.curr.Value
+		default:
+			return nil, &unexpectedTokenError{p.curr.Value}
 		}
 
 		if p.next.Type != lexer.ColonToken {
